@@ -49,6 +49,9 @@ CLAIMED = {
  'C10': ('other', 'ground read-back of the starting vector through the named quantities + z3 identity of the evaluated time-expression guesses for all guessed t0/T + relational NLP invariance',
          'For every enumerated guess set (scalar, n x N, n x (N+1), expression of time; states, controls, variables of every kind, algebraics, free T/t0), method, grid and call order: (a) the starting point read back in physical units equals the guess at every node / interval / collocation point, zero elsewhere, last call wins (ground, distinct values); (b) each expression rockit evaluates at the initial point (logged through a shim on OptiAdvanced.value) is proven by z3 equal to the guess expression at the named node / interval-start / collocation times for ALL guessed t0, T; (c) two real transcriptions with and without guesses have identical rows/objective for all x; (d) guesses given after the first transcription produce the same starting point as before it.',
          'Guess values live in CasADi\'s numeric store: routing is ground. OptiAdvanced.value wrapped by a logging shim.', '3/C10'),
+ 'C15': ('other', 'universally quantified implication over the real NLP rows decided by z3 (QF_LRA/QF_NRA): all rows hold => refined step polynomial satisfies the bound; counterexamples replayed',
+         "Bounded symbolic checking. For linear chain models whose step polynomial is exact (x'=u, double integrator) with degree-1 grid='inf' constraints, MS/SS (rk) and DC degree 4, uniform / geometric / user / free grids, numeric and free T: z3 decides (every NLP row) & (positive steps) & (some refined sample point violates the bound): unsat proves sufficiency for every decision vector; a sat model is replayed on the real NLP functions and the real refined sample and reported only if feasible-and-violating. Non-polynomial bodies must raise.",
+         'Refined sample = scheme polynomial (C08). Degree-2 bodies, inf_der/inf_inert and tightness outside (nlsat does not finish).', '3/C15'),
 }
 NA = {p: 'check not built yet in this round (see DESIGN.md section 3 for the plan)' for p in
       ['C02','C03','C04','C05','C06','C07','C08','C09','C10','C11','C12','C13','C14','C15','C16','C17','C18','C19']}
